@@ -18,7 +18,7 @@ LEVEL_NOTE = ("Trusted: the documented line formats ('Missing reference in file 
               "files): N', 'Num. inserted reference(s): N'); an unrecognisable report is a harness error, not a violation.")
 RULE = ("case = generated tree (statement lines decorated with tabs / multi-byte / same-line prefixes, CRLF variants) or 1-3 real "
         "corpus files; 2 runs (check, edit). Non-trivial = at least one missing reference; distinct = case index.")
-PROBES = ["multibyte_before_stmt", "tab_indent", "crlf_file", "corpus_world", "no_missing_refs", "structured", "multi_file"]
+PROBES = ["unreadable_neighbour", "multibyte_before_stmt", "tab_indent", "crlf_file", "corpus_world", "no_missing_refs", "structured", "multi_file"]
 ASSUMPTIONS = ["all in-scope files are readable", "check and edit see the same enumeration order (same plan seed)"]
 DEADLINE = {"quick": 200, "thorough": 3000}
 
@@ -58,6 +58,10 @@ def gen(rng):
             extra["proj/src/c%d_%s" % (i, rel.replace("/", "_"))] = {"t": "f", "mode": 0o644, "data": data}
         wm = {"cfg": {"source_dir": "./src", "structured": rng.random() < 0.4, "use_cache": False}, "files": {}, "extra": extra,
               "lock": None}
+    if rng.random() < 0.1:
+        # "given at least one readable in-scope file": an unreadable one beside them changes nothing about the verdict
+        wm["extra"]["proj/src/not_text.rs"] = {"t": "f", "mode": 0o644, "data": b"fn x() { info!(\"binary\"); }\n\xff\xfe\x80\n"}
+        tags.add("unreadable_neighbour")
     if wm["cfg"].get("structured"):
         tags.add("structured")
     knobs = {"threads": rng.randrange(1, 5), "config_arg": rng.choice(["rel", "abs", "dotrel"]), "cwd": "proj"}
@@ -95,7 +99,8 @@ def evaluate(wm, knobs, plan, ctx):
     # expected from the edit diff
     expected = collections.Counter()
     ntok = 0
-    srcs = sorted(set(wm["files"]) | {p for p in wm["extra"] if p.startswith("proj/src/") and p.endswith(".rs")})
+    srcs = sorted(set(wm["files"]) | {p for p in wm["extra"] if p.startswith("proj/src/") and p.endswith(".rs")
+                                       and p != "proj/src/not_text.rs"})
     for p in srcs:
         b = edt["before"][p]["data"]
         a = edt["after"][p]["data"]
